@@ -439,13 +439,21 @@ fn gen_decimal_spec(rng: &mut Rng, dim: usize, kind: u8, force_inexact: bool) ->
             let (l, h) = (lo[j], hi[j]);
             match kind {
                 4 => if rng.chance(1, 2) { -1.0 } else { 1.0 },               // sign of the slope
-                5 => l + (h - l) * ([0.4, 0.6, 0.25, 0.75, 0.5][rng.usize(5)]), // interior: the far bound is the better basin
+                5 => {
+                    // interior centre: both bounds are local optima and the bound farther from c is the better one.
+                    // Three times out of four c sits nearer to the bound whose reflection overshoots, so that a point
+                    // resting on that bound sees a better value just past the opposite one.
+                    let towards_lo = if (l + h) - l > h { true } else if (l + h) - h < l { false } else { rng.chance(1, 2) };
+                    let near = [0.25, 0.4, 0.45][rng.usize(3)];
+                    let frac = if rng.chance(3, 4) == towards_lo { near } else { 1.0 - near };
+                    l + (h - l) * frac
+                }
                 _ => match rng.below(4) { 0 => l, 1 => h, 2 => l - (h - l) * 0.5, _ => h + (h - l) * 0.5 },
             }
         })
         .collect();
     let target2: Vec<f64> = (0..dim).map(|j| if rng.chance(1, 2) { lo[j] } else { hi[j] + (hi[j] - lo[j]) }).collect();
-    let pen = if rng.chance(1, 4) { 2 } else { 0 };
+    let pen = if rng.chance(1, 5) { 2 } else { 0 };
     let t = lo.iter().zip(&hi).map(|(l, h)| l + (h - l) * 0.9).sum::<f64>();
     Spec { lo, hi, kind, target, target2, pen, t }
 }
@@ -621,7 +629,7 @@ fn main() {
     // clamped move tends to overwrite a stray coordinate), objectives with the optimum on a bound or outside.
     // Every solver, populations on both sides of 12 (and 50 in thorough), every run long enough to reach the bounds.
     if args.replay.is_none() {
-        let pops: &[usize] = if args.thorough() { &[5, 10, 16, 30, 50] } else { &[10, 30] };
+        let pops: &[usize] = if args.thorough() { &[5, 10, 16, 30, 50] } else { &[10, 16, 30] };
         for s in SO_SOLVERS.iter().chain(MO_SOLVERS.iter()) {
             for &pop in pops {
                 // (dimension, objective family, reflection forced inexact)
@@ -629,14 +637,17 @@ fn main() {
                     let mut v = vec![];
                     for dim in 1..=3usize {
                         for kind in 4..=6u8 {
-                            for rep_ in 0..(if dim == 1 { 6 } else { 3 }) {
+                            for rep_ in 0..(if dim == 1 { 16 } else { 4 }) {
                                 v.push((dim, kind, rep_ % 2 == 0));
                             }
                         }
                     }
                     v
                 } else {
-                    vec![(1, 5, true), (1, 5, true), (1, 4, false), (1, 6, true), (2, 5, true), (2, 4 + rng.below(3) as u8, false), (3, 5, false)]
+                    let mut v = vec![(1usize, 5u8, true); 14];
+                    v.extend([(1, 4, true), (1, 4, false), (1, 4, false), (1, 6, true), (1, 6, false)]);
+                    v.extend([(2, 5, true), (2, 5, true), (2, 4 + rng.below(3) as u8, false), (3, 5, false)]);
+                    v
                 };
                 for (dim, kind, force) in plan {
                     let spec = gen_decimal_spec(&mut rng, dim, kind, force);
